@@ -51,6 +51,17 @@ fn round_t<T: RealNumber>(x: f64) -> f64 {
     f(t::<T>(x))
 }
 
+/// largest finite value of T
+fn max_t<T: RealNumber>() -> f64 {
+    f(T::max_value())
+}
+
+/// true when sums of n·d squared differences of magnitude m stay 1000× below the overflow threshold of T
+fn squares_representable<T: RealNumber>(n: usize, d: usize, m: f64) -> bool {
+    let b = (n * d) as f64 * (2.0 * m) * (2.0 * m);
+    b.is_finite() && b < 1e-3 * max_t::<T>()
+}
+
 fn n_class(n: usize) -> &'static str {
     if n <= 12 {
         "n:2-12"
@@ -601,6 +612,10 @@ fn fit_case_t<T: W>(c: &mut Case, kind: &str, scaled: bool) {
         c.skip("generator produced fewer than 2 distinct rows after rounding");
         return;
     }
+    if !squares_representable::<T>(n, d, dat.s) {
+        c.skip("squared distances of the rescaled data would come within 1e3 of the overflow threshold of the float width");
+        return;
+    }
     let k = c.rng.us(2, 8.min(dat.distinct));
     let max_iter = {
         let r = c.rng.f();
@@ -927,8 +942,12 @@ fn assign_case_t<T: W>(c: &mut Case, scaled: bool) {
         let k = if c.rng.bool(0.05) { 1 } else { c.rng.us(2, 8) };
         let ck = *c.rng.pick(&CKINDS);
         let cs: Vec<Vec<f64>> = gen_centroids(&mut c.rng, &dat, k, ck).into_iter().map(|r| r.into_iter().map(round_t::<T>).collect()).collect();
-        if cs.iter().all(|r| r.iter().all(|v| v.is_finite())) {
+        let s_cent = cs.iter().map(|r| linf(r)).fold(0.0f64, f64::max);
+        if cs.iter().all(|r| r.iter().all(|v| v.is_finite())) && squares_representable::<T>(dat.x.r, d, dat.s.max(s_cent)) {
             sets.push((ck.to_string(), cs));
+        } else {
+            // f32 only: data rescaled to 1e12 with centroids 1e6 spreads away overflow the squared distances
+            c.bucket("centroids:set-dropped(squared-distances-not-representable)");
         }
     }
     c.describe(json!({"op": "assignment-step", "width": width::<T>(), "kind": dat.kind, "scale": dat.scale, "X": mat_json(&dat.x),
@@ -936,6 +955,9 @@ fn assign_case_t<T: W>(c: &mut Case, scaled: bool) {
     let flat: Vec<f64> = sets.iter().flat_map(|(_, cs)| cs.iter().flat_map(|r| r.iter().cloned())).collect();
     hash_case::<T>(c, &dat, &flat);
     let sg = sig::<T>(&dat);
+    if std::env::var("C12_TRACE").is_ok() {
+        eprintln!("TRACE {}", c.descr);
+    }
     if !tree_builds::<T>(c, &dat) {
         c.nontrivial();
         return;
@@ -1023,7 +1045,7 @@ fn main() {
     }
     runner::main(Spec {
         property: "C12",
-        rule: "fit_* families: one data set per case (2..300 rows, 1..6 columns; continuous / lattice with exact ties and duplicates / clustered / few distinct points repeated / collinear with constant columns / near-duplicates = rows copied and moved by 1..3 ulps or a relative 1e-13..1e-6; fit_scaled rescales by 10^u or 2^u, 10^u in [1e-12,1e12]; 80 % f64, 20 % f32), k drawn from 2..min(8, #distinct rows) so that the data has at least k distinct rows by construction, max_iter 1..100, fitted 10 times (the k-means++ seeding uses an unseeded thread-local RNG: the 10 fits are the schedules), every fit followed by predict on the training rows and on 4..24 fresh rows (random, data rows, centroid midpoints, centroids, points on centroid segments); a fit case is non-trivial when some returned cluster had >= 2 members (a centroid is a proper mean). assign / assign_scaled: one data set of the same kinds and 10 centroid sets (k 1..8: data rows, in the box, far outside 10..1e6 spreads, coincident, means of a random partition, symmetric pairs x±v producing ties, all beyond one face, mixed, jittered rows) pushed through the filtering tree; non-trivial when some call attached rows to >= 2 centroids. assign_enum: all 4^4·8^2 = 16384 combinations of 4 rows on {0,1,2,3} and 2 centroids on {-1,0,.5,1,1.5,2,3,5}. distinct = hash of (family, width, data, k, max_iter / centroid sets)",
+        rule: "fit_* families: one data set per case (2..300 rows, 1..6 columns; continuous / lattice with exact ties and duplicates / clustered / few distinct points repeated / collinear with constant columns / near-duplicates = rows copied and moved by 1..3 ulps or a relative 1e-13..1e-6; fit_scaled rescales by 10^u or 2^u, 10^u in [1e-12,1e12]; 80 % f64, 20 % f32; 70/30 in fit_near_duplicates), k drawn from 2..min(8, #distinct rows) so that the data has at least k distinct rows by construction, max_iter 1..100, fitted 10 times (the k-means++ seeding uses an unseeded thread-local RNG: the 10 fits are the schedules), every fit followed by predict on the training rows and on 4..24 fresh rows (random, data rows, centroid midpoints, centroids, points on centroid segments); a fit case is non-trivial when some returned cluster had >= 2 members (a centroid is a proper mean). assign / assign_scaled: one data set of the same kinds and 10 centroid sets (k 1..8: data rows, in the box, far outside 10..1e6 spreads, coincident, means of a random partition, symmetric pairs x±v producing ties, all beyond one face, mixed, jittered rows) pushed through the filtering tree; non-trivial when some call attached rows to >= 2 centroids. assign_enum: all 4^4·8^2 = 16384 combinations of 4 rows on {0,1,2,3} and 2 centroids on {-1,0,.5,1,1.5,2,3,5}. distinct = hash of (family, width, data, k, max_iter / centroid sets)",
         assumptions: vec![
             "the seeding RNG of KMeans::fit is an unseeded thread-local generator: a replay re-creates the data set, k and max_iter exactly but draws new initialisations (10 per replay); a schedule-dependent violation may need several replays",
             "oracle arithmetic is f64 with compensated sums on the already-rounded (f32/f64) inputs; centroids of f32 models are read back from the serde view and re-rounded to f32",
@@ -1031,6 +1053,8 @@ fn main() {
             "centroid = mean and tree sums are compared relative to max|x| with 1e-9 (f64) / 64·(n+2)·eps (f32); counts and sizes exactly; distortion with 1e-9 relative plus a first-order rounding model in (n+2)·eps·max(|x|,|c|)",
             "the filtering tree is only built in-process when the monitor's replica of its splitting rule finds no split that leaves one side empty; otherwise the build is first observed in a child process (an unbounded recursion overflows the stack and cannot be caught in-process); the verdict no-crash:bbd-tree-build is what the child did",
             "iteration limit 0, k < 2 and data sets with fewer than k distinct rows are outside the property and are not generated",
+            "inputs whose squared distances would come within a factor 1e3 of the overflow threshold of the float width (only f32 data rescaled to ~1e12 with centroids 1e6 spreads away) are skipped / dropped and counted",
+            "debugging aid: with C12_TRACE set every case prints its input to stderr before the library is called (to identify an input that aborts the process)",
         ],
         families: vec![
             Family::new("fit_continuous", 1200, 36000, fit_continuous),
